@@ -242,6 +242,9 @@ func c03Run(c *ev.Ctx) {
 		case 1:
 			v := hx.GenNumeric(r, "[]i32", 2, 2)
 			op = hx.Op{K: "create_ds", Path: g.newPath(valid), DT: "i32", Dims: []uint64{2}, Data: &v}
+			if r.Chance(1, 3) {
+				op.Chunk = []uint64{uint64(r.Range(1, 2))} // chunked creation is a code path of its own
+			}
 			node = &c03Node{Kind: "dataset"}
 		case 2:
 			ex := g.existing("")
